@@ -54,6 +54,7 @@ type taintRun struct {
 	in       map[*ssa.BasicBlock]map[ssa.Value]bool
 	ret      []bool
 	localKey map[*ssa.Alloc]ssa.Value // cell → address value in this function
+	visiting map[ssa.Value]bool
 }
 
 // NewTaint runs the analysis to a fixed point over fns (closures included by
@@ -171,6 +172,14 @@ func (r *taintRun) val(v ssa.Value, st map[ssa.Value]bool) bool {
 	case *ssa.Parameter:
 		return r.params[x]
 	case *ssa.Phi:
+		if r.visiting == nil {
+			r.visiting = map[ssa.Value]bool{}
+		}
+		if r.visiting[v] {
+			return false
+		}
+		r.visiting[v] = true
+		defer delete(r.visiting, v)
 		for _, e := range x.Edges {
 			if e != v && r.val(e, st) {
 				return true
